@@ -28,14 +28,63 @@ def run_case(case):
         frames.append({"id": msg.arbitration_id, "d": B(msg.data), "rtr": bool(msg.is_remote_frame)})
         if 0x600 < msg.arbitration_id < 0x680 and len(msg.data) == 8 and msg.data[0] >> 5 == 1:
             net.notify(msg.arbitration_id - 0x80, bytearray([0x60]) + bytearray(msg.data[1:4]) + bytearray(4), 0.0)
+        if msg.arbitration_id == 0x607 and len(msg.data) == 8 and msg.data[0] >> 5 == 2:
+            # upload request: the device answers with the one-byte "number of entries" it holds
+            dev["uploads"].append([msg.data[1] | msg.data[2] << 8, msg.data[3]])
+            net.notify(0x587, bytearray([0x4F]) + bytearray(msg.data[1:4]) + bytearray([dev["n"], 0, 0, 0]), 0.0)
+    dev = {"n": 0, "uploads": []}
     net.bus = FakeBus(on_send)
     net.lss.responses = hbus.InstantQueue()
-    node = canopen.RemoteNode(7, canopen.ObjectDictionary())
+    from canopen.objectdictionary import ODArray, ODRecord, ODVariable
+    od = canopen.ObjectDictionary()
+    arr = ODArray("Values", 0x2100)
+    for sub, dt in ((0, 0x5), (1, 0x6)):
+        v = ODVariable("Number of entries" if sub == 0 else "Value", 0x2100, sub)
+        v.data_type = dt
+        arr.add_member(v)
+    od.add_object(arr)
+    recsubs = case.get("recsubs", [0, 1, 2])
+    rec = ODRecord("Settings", 0x2200)
+    for sub in recsubs:
+        v = ODVariable(f"member {sub}", 0x2200, sub)
+        v.data_type = 0x5
+        rec.add_member(v)
+    od.add_object(rec)
+    node = canopen.RemoteNode(7, od)
     net.add_node(node)
     ev = []
     for _ in range(case["n"]):
         del frames[:]
-        k = rng.choice(["sync", "time", "search", "store", "restore", "identify", "identify_nc"])
+        k = rng.choice(["sync", "time", "search", "store", "restore", "identify", "identify_nc", "arrview", "recview"])
+        if k == "arrview":
+            # the array view of a remote node: length, iteration and membership follow the number of
+            # entries the DEVICE reports in sub-index 0 at that moment (one upload per question)
+            dev["n"] = rng.choice([0, 1, 2, 7, 254, rng.randrange(255)])
+            view = node.sdo[0x2100] if rng.random() < 0.5 else node.sdo["Values"]
+            e = {"e": "arrview", "cnt": dev["n"], "reads": []}
+            del dev["uploads"][:]
+            e["len"] = len(view)
+            e["reads"].append(list(dev["uploads"]))
+            del dev["uploads"][:]
+            e["iter"] = [x for x in view]           # (list(view) would ask for the length as well)
+            e["reads"].append(list(dev["uploads"]))
+            e["contains"] = []
+            for s_ in (0, 1, dev["n"], dev["n"] + 1, 255, rng.randrange(256)):
+                del dev["uploads"][:]
+                e["contains"].append([s_ + 1, s_ in view])        # (logged + 1: naturals for TLC)
+                e["reads"].append(list(dev["uploads"]))
+            ev.append(e)
+            continue
+        if k == "recview":
+            view = node.sdo[0x2200] if rng.random() < 0.5 else node.sdo["Settings"]
+            del dev["uploads"][:]
+            e = {"e": "recview", "subs": list(recsubs), "len": len(view), "iter": list(view), "contains": [], "names": []}
+            for s_ in (0, 1, 2, 5, 255, rng.randrange(256)):
+                e["contains"].append([s_, s_ in view])
+                e["names"].append([s_, f"member {s_}" in view])
+            e["traffic"] = len(dev["uploads"])
+            ev.append(e)
+            continue
         if k == "sync":
             c = rng.choice([-1, 0, 1, 240, 255])
             net.sync.transmit(None if c < 0 else c)
